@@ -235,6 +235,8 @@ fn build_side(case: &Case, prepop: &Prepop, log: CallLog, relative_root: bool) -
 fn test(case: &Case, st: &mut Stats, counting: bool) -> CaseResult {
     let watch = JailWatch::new();
     let mut trace: Vec<String> = vec![];
+    let mut early_handles = 0usize;
+    let mut aged_copies = 0usize;
     let mut crossfs = 0usize; // transfers between the altroot and an unrelated filesystem
     let mut held = 0usize; // create sessions held open and inspected through the underlying filesystem
     let mut facts = (0usize, 0usize, 0usize, false); // hostile mutating ops, executed, tolerated ancestor lookups, content next to P
@@ -426,10 +428,54 @@ fn test(case: &Case, st: &mut Stats, counting: bool) -> CaseResult {
                     continue;
                 }
             }
+            // a copy is a new file: before a file copy the source is aged on both sides (directly in
+            // the underlying filesystems), afterwards both destinations must be equally "recent"
+            let aged = matches!(op_q, Op::CopyFile(..)) && view.is_file(&q);
+            if aged {
+                let old = crate::exec::time_of(978_307_200, 0);
+                for under in [&a_under, &b_under] {
+                    if let Ok(p) = at(under, &format!("{}{}", p_total, q)) {
+                        let _ = p.set_modification_time(old);
+                    }
+                }
+            }
+            // a read handle opened before the call and used after it (twin: the same on P/q)
+            let early = if op_q.target() == q && view.is_file(&q) && raw.mode2 % 4 == 2 && !op_q.is_observer() {
+                let ha = vp.open_file().ok();
+                let hb = at(&b_under, &format!("{}{}", p_total, q)).ok().and_then(|p| p.open_file().ok());
+                match (ha, hb) {
+                    (Some(a), Some(b)) => Some((a, b)),
+                    _ => None,
+                }
+            } else {
+                None
+            };
             log.lock().unwrap().clear();
             let out_a = exec_on(&vp, dvp.as_ref(), &op_q);
             let calls: Vec<Call> = std::mem::take(&mut *log.lock().unwrap());
             let out_b = exec(&b_under, &twin_op);
+            if let Some((mut ha, mut hb)) = early {
+                use std::io::Read;
+                let (mut va, mut vb) = (vec![], vec![]);
+                let (ra, rb) = (ha.read_to_end(&mut va).is_ok(), hb.read_to_end(&mut vb).is_ok());
+                if ra != rb || (ra && va != vb) {
+                    return Err((step, format!("a read handle on '{}' opened before {} and read afterwards delivers {} through the altroot but {} for a handle opened on P/q directly", q, op_q.render(), if ra { format!("{} bytes", va.len()) } else { "an error".into() }, if rb { format!("{} bytes", vb.len()) } else { "an error".into() })));
+                }
+                early_handles += 1;
+            }
+            if aged && out_a.is_ok() && out_b.is_ok() {
+                if let Some(d) = &dq {
+                    let recent = |under: &VfsPath| -> Option<bool> {
+                        let m = at(under, &format!("{}{}", p_total, d)).ok()?.metadata().ok()?;
+                        m.modified.map(|t| t > crate::exec::time_of(1_500_000_000, 0))
+                    };
+                    let (ma, mb) = (recent(&a_under), recent(&b_under));
+                    if ma != mb {
+                        return Err((step, format!("{} of a source last modified in 2001: the copy's modification time is {} behind the altroot but {} for the same call on P/q", op_q.render(), if ma == Some(true) { "recent" } else { "the source's old one" }, if mb == Some(true) { "recent" } else { "the source's old one" })));
+                    }
+                    aged_copies += 1;
+                }
+            }
             trace.push(format!("{} via join({:?}{}) -> {} | twin {} -> {}", op_q.render(), arg, darg.as_ref().map(|d| format!(", {:?}", d)).unwrap_or_default(), out_a.class_str(), twin_op.render(), out_b.class_str()));
             // (2) recorder: nothing outside P is touched
             if case.use_alt {
@@ -531,6 +577,8 @@ fn test(case: &Case, st: &mut Stats, counting: bool) -> CaseResult {
                 st.label_n("ops_executed", facts.1 as u64);
                 st.label_n("create_sessions_held_open", held as u64);
                 st.label_n("cross_filesystem_transfers", crossfs as u64);
+                st.label_n("read_handles_opened_before_a_mutation", early_handles as u64);
+                st.label_n("copies_of_aged_sources", aged_copies as u64);
                 st.label_n("hostile_mutating_ops", facts.0 as u64);
                 st.label_n("tolerated_ancestor_lookups", facts.2 as u64);
                 if nt {
@@ -621,7 +669,7 @@ pub fn replay(v: &Value) -> CaseResult {
     test(&case, &mut st, false)
 }
 
-const RULE: &str = "underlying U in {Mem, Phys, Overlay[..], Overlay on sub-paths} pre-populated inside and outside P; P = 0..3 components drawn from the case's own name pool (so that children named like P occur), optionally an altroot of an altroot, or no altroot at all (backend root used directly); a plain PhysicalFS underlying is built from a RELATIVE root path ('../<dir>/jail/root') in half of the cases while its twin uses the absolute path; create sessions are now and then held open and the underlying filesystem inspected meanwhile; copy_file / move_file / copy_dir out of the altroot into an unrelated MemoryFS and copy_file from there into the altroot, the twin doing the same on P/q (same outcome, same other filesystem, same underlying tree); typed C01 ops whose path arguments are join()ed from hostile strings ('../'-climbs, absolute restarts, detours, backslashes, '%2e', names glued to '..', P's own name); oracles: (1) twin instance U' receives the call on P/q (q by the independent reference resolver): same outcome class/value and identical WHOLE underlying snapshots after every step, and the altroot view equals the subtree below P; (2) a recorder between altroot and U: every trait call's path lies in P (exists/metadata on proper ancestors of P tolerated and counted); (3) OS jail around every PhysicalFS root (sentinel sibling, parent, cwd, '/') unchanged; non-trivial = >=1 mutating op issued through a hostile argument while content exists next to P";
+const RULE: &str = "underlying U in {Mem, Phys, Overlay[..], Overlay on sub-paths} pre-populated inside and outside P; P = 0..3 components drawn from the case's own name pool (so that children named like P occur), optionally an altroot of an altroot, or no altroot at all (backend root used directly); a plain PhysicalFS underlying is built from a RELATIVE root path ('../<dir>/jail/root') in half of the cases while its twin uses the absolute path; create sessions are now and then held open and the underlying filesystem inspected meanwhile; read handles opened before a mutating call on their file and read afterwards must deliver what a handle on P/q delivers; copies of a source whose modification time was set to 2001 must be as recent as the twin's copy; copy_file / move_file / copy_dir out of the altroot into an unrelated MemoryFS and copy_file from there into the altroot, the twin doing the same on P/q (same outcome, same other filesystem, same underlying tree); typed C01 ops whose path arguments are join()ed from hostile strings ('../'-climbs, absolute restarts, detours, backslashes, '%2e', names glued to '..', P's own name); oracles: (1) twin instance U' receives the call on P/q (q by the independent reference resolver): same outcome class/value and identical WHOLE underlying snapshots after every step, and the altroot view equals the subtree below P; (2) a recorder between altroot and U: every trait call's path lies in P (exists/metadata on proper ancestors of P tolerated and counted); (3) OS jail around every PhysicalFS root (sentinel sibling, parent, cwd, '/') unchanged; non-trivial = >=1 mutating op issued through a hostile argument while content exists next to P";
 
 pub fn run(ctx: &RunCtx) -> i32 {
     ensure_cwd();
